@@ -222,13 +222,13 @@ func init() {
 
 func init() {
 	Properties["C18"] = PropSpec{
-		Rules:       []Rule{Schemata, KConsistent, ResultAlgebra, ResLinear, GuardScope},
+		Rules:       []Rule{Schemata, KConsistent, ResultAlgebra, ResLinear, GuardScope, ObjectRouting, SliceRouting},
 		Explanation: "SCHEMATA/POST: the per-field and per-item schemata lists of a Result only receive appends to themselves or fresh slices (never the list of a result about to be recycled), every recorded entry holds cloned schemata, an absent member is recorded exactly on (absent, Default != nil, !skipSchemataResult), every schema-validation result — also for nil data — carries its schema as root schemata; ApplyDefaults has a single write, key.Object()[key.Field()] = s.Default, confined to members found absent by a comma-ok lookup of the same object and field, s ranging over that member's schemata with Default != nil, over every recorded member. K-CONSISTENT: each member's result is merged under (container, that member's key). RESULT-ALGEBRA/RES-LINEAR: merges apply their effects once and results are not used after release.",
 		NotDecided:  "Which anyOf/oneOf alternative's schemata survive, correctness at depth and that no other member appears beyond the single-write shape: value-level.",
 		Assumptions: []string{trustDeps},
 	}
 	Properties["C19"] = PropSpec{
-		Rules:       []Rule{Schemata, KConsistent, ResultAlgebra, ResLinear, GuardScope},
+		Rules:       []Rule{Schemata, KConsistent, ResultAlgebra, ResLinear, GuardScope, ObjectRouting, SliceRouting},
 		Explanation: "SCHEMATA/POST as for C18, and for pruning: pruneObject's single write is delete(obj, field) with field ranging over obj, decided by FieldSchemata()[NewFieldKey(obj, field)] of the same object and member; prune recurses into every map value and slice element. K-CONSISTENT: the result of validating a member (declared, pattern or additional property, tuple / additional / list item) is filed under (container, that member's own key or index), so a described member has schemata and an undescribed one has none.",
 		NotDecided:  "As C18; idempotence of pruning.",
 		Assumptions: []string{trustDeps},
@@ -237,7 +237,7 @@ func init() {
 
 func init() {
 	Properties["C09"] = PropSpec{
-		Rules:       []Rule{Traverse, ResetBetween, RuleSeq, GuardScope},
+		Rules:       []Rule{Traverse, ResetBetween, RuleSeq, GuardScope, KeywordPosition, Keywords("ParamValidator", simpleKeywords, "param_ctor_calls"), Keywords("HeaderValidator", simpleKeywords, "header_ctor_calls"), Keywords("itemsValidator", simpleKeywords, "items_ctor_calls")},
 		Explanation: "TRAVERSE: (a) the recursive descent of both walkers calls itself on schema.Items.Schema, each of Items.Schemas, each of Properties, AdditionalProperties.Schema and each of AllOf, with a path that extends the current one and contains the loop key/index (so members get distinct visited-set keys), merged with Merge; the schema's own default/example is validated by a validator built from that schema; (b) the default and the example walker are compared step by step (callee, argument provenance, guard conditions, path shape): every traversal step of the default walker exists in the example walker under the same guards; (c) a leaf verdict on a default enters as Merge (error), on an example as MergeAsWarnings, and both walkers are merged with Merge in Validate (RULE-SEQ); (d) the skip predicate isVisited may answer true only on the found edge of the lookup of that path; RESET-BETWEEN: every top-level walk (per parameter, per response schema, per definition) starts from an emptied visited set on every path, loops included, so that a path of one walk can never be taken for a visited path of another.",
 		NotDecided:  "That each leaf validation is right (C01/C16); the behaviour of the recursion cut-off on circular specifications.",
 		Assumptions: []string{trustDeps},
